@@ -1,0 +1,11 @@
+//go:build verif
+
+// Contracts for the gowp verifier (/verif). Comment-only file: compiled only with -tags verif and
+// contributes no code either way.
+
+package chanstate
+
+//@ func (c *OpenChannel) NextLocalHtlcIndex
+//@   props C07
+//@   ensures result1 == nil && retn(RemoteCommitChainTip, 0) != nil ==> result0 == retn(RemoteCommitChainTip, 0).Commitment.LocalHtlcIndex
+//@   ensures result1 == nil && retn(RemoteCommitChainTip, 0) == nil ==> result0 == c.RemoteCommitment.LocalHtlcIndex
